@@ -5,7 +5,7 @@ import re, json, os
 DIRECTIVES = {
     'unit', 'serves', 'module', 'features', 'prelude', 'specs', 'flags', 'assumptions', 'item',
     'pre_attrs', 'requires', 'ensures', 'decreases', 'keep_fields', 'derives', 'loop', 'closure',
-    'params', 'cret', 'crequires', 'censures', 'adapter', 'bind', 'insert', 'wrap', 'carries', 'adapt', 'nosentinel', 'note', 'carve',
+    'params', 'cret', 'crequires', 'censures', 'adapter', 'bind', 'insert', 'wrap', 'carries', 'adapt', 'brk_type', 'nosentinel', 'note', 'carve',
 }
 
 _dir_re = re.compile(r'^\s*@([a-z_]+)\b(.*)$')
@@ -111,6 +111,9 @@ def parse(path):
         elif d == 'adapt':
             a = arg.split()
             item.setdefault('adapts', []).append({'chain': a[0], 'wrapper': a[1], 'recv': a[2] if len(a) > 2 else ''})
+        elif d == 'brk_type':
+            k, _, ty = arg.partition(' ')
+            item.setdefault('brk_types', {})[str(int(k))] = ty.strip()
         elif d == 'carries':
             item['carries'] = arg.split()
         elif d == 'keep_fields':
@@ -232,6 +235,8 @@ def job(u, sentinel=False):
             j['wraps'] = it['wraps']
         if it.get('adapts'):
             j['adapts'] = it['adapts']
+        if it.get('brk_types'):
+            j['brk_types'] = it['brk_types']
         items.append(j)
     repo = os.environ.get('VERIF_REPO', '/repo')
     import glob
